@@ -91,7 +91,9 @@ class Reply(SerializableMixin, DictableMixin):
 
                 self.code = int(match.group(1))
             elif match.group(1) and match.group(2) == b'-' \
-                    and self.text is None:
+                    and self._multiline_code is None:
+                # The first line that carries a code opens the reply (a
+                # line without a code may come before it).
                 self._multiline_code = match.group(1)
 
             if self.text is None:
